@@ -7,7 +7,7 @@ import os
 
 import numpy as np
 from nptdms.common import toc_properties, ObjectPath
-from nptdms.timestamp import TdmsTimestamp
+from nptdms.timestamp import TdmsTimestamp, TimestampArray
 from nptdms.types import *
 from nptdms import TdmsFile
 
@@ -411,6 +411,8 @@ def write_data(file, tdms_object):
     elif tdms_object.data_type == String:
         # Strings are variable size so need to be treated specially
         write_string_values(file, tdms_object.data)
+    elif isinstance(tdms_object.data, TimestampArray):
+        write_timestamp_array(file, tdms_object.data)
     elif tdms_object.data.dtype == np.dtype('O'):
         # Array of objects such as TdmsTimestamp, which must be converted to bytes one by one
         write_values(file, tdms_object.data)
@@ -434,6 +436,15 @@ def to_file(file, array):
 
 def write_values(file, array):
     file.write(b''.join(_to_tdms_value(val).bytes for val in array))
+
+
+def write_timestamp_array(file, array):
+    # Second fractions are stored before seconds, which isn't the field order
+    # of timestamp arrays read from big endian files
+    ordered = np.empty(len(array), dtype=[('second_fractions', '<u8'), ('seconds', '<i8')])
+    ordered['second_fractions'] = array.second_fractions
+    ordered['seconds'] = array.seconds
+    to_file(file, ordered)
 
 
 def write_string_values(file, strings):
